@@ -23,31 +23,55 @@ META = {
         'pretty_midi 0.2.11 for the calls midi_io makes (every sampled path '
         'and every counterexample is replayed on the real pretty_midi object '
         'model). Outside the claim: everything about bytes, "within one MIDI '
-        'tick" for note times, the ticks_per_quarter range.',
+        'tick" for note times, ticks_per_quarter values other than the '
+        'listed ones.',
     'explanation':
         'Stub-contract level: the verdict is a bounded symbolic-execution '
         'result about note_seq.midi_io given pm-lite as the model of the '
         'pretty_midi objects; the third-party byte layer is assumed, not '
         'checked.',
     'functions': [('midi_io', 'note_sequence_to_pretty_midi'),
-                  ('midi_io', 'midi_to_note_sequence')],
+                  ('midi_io', 'midi_to_note_sequence'),
+                  ('midi_io', 'note_sequence_to_midi_file'),
+                  ('midi_io', 'midi_file_to_note_sequence'),
+                  ('midi_io', 'sequence_proto_to_pretty_midi'),
+                  ('midi_io', 'sequence_proto_to_midi_file'),
+                  ('midi_io', 'midi_to_sequence_proto'),
+                  ('midi_io', 'midi_file_to_sequence_proto')],
     'assumptions': [
         'pretty_midi write+read is the identity on the object model (up to a '
-        'tick) - not checked',
+        'tick) - not checked; the *_file entry points are run with the byte '
+        'layer cut out (the object handed to PrettyMIDI.write is recorded, '
+        'PrettyMIDI(<bytes>) is a stub yielding the object; file = os.devnull)',
         'pitches 0..127, velocities 1..127, notes of positive length',
         'tempo values come from the grid {30,60,120,240} qpm at 256 ticks per '
         'quarter (tick scales are then exact binary fractions, which keeps the '
-        'integer arithmetic of the tick rounding small; 97.3 qpm at 220 tpq is '
-        'tried in the thorough tier without being required to finish); tempo '
-        'times symbolic, pairwise distinct',
+        'integer arithmetic of the tick rounding small), plus required jobs '
+        'with 97.3 qpm at 220 tpq, at 480 tpq and with ticks_per_quarter '
+        'unset; tempo times symbolic, pairwise distinct (two tempos at one '
+        'instant are outside: the statement does not say which one is in '
+        'effect)',
+        'drop_events_n_seconds_after_last_note: n symbolic in 0..8; without '
+        'any note only "export succeeds, events at a time <= n are kept" is '
+        'claimed (the docstring does not define the cutoff there)',
+        'instrument names: only names given through instrument_infos are '
+        'claimed to travel with their instrument; generated names ("Drums", '
+        'program names) and the number of empty instruments are not claimed',
     ],
     'bounds': {
-        'quick': 'N<=3 notes + 1 bend + 1 control change over instruments '
-                 '{0,1,2} x programs {0,5} x drum flag; K<=3 tempos',
+        'quick': 'N<=3 notes + <=2 bends + <=2 control changes over '
+                 'instruments {0,1,2} or {0,9,17} x programs {0,5} or {0,127} '
+                 'x drum flag, N=0; K<=3 tempos (K=0,1 too); ticks_per_quarter '
+                 'in {unset,24,220,256,480,960}; <=2 time signatures '
+                 '(denominators 1..32) and <=2 key signatures, symbolic times; '
+                 'drop argument with 2 notes / 2 groups / 2 of each event kind '
+                 'through all 4 export entry points; import of I<=3 '
+                 'instruments incl. empty ones and none, <=3 tempo changes, '
+                 'through all 4 import entry points',
         'thorough': 'N<=4 notes, K<=3 tempos with all qpm permutations',
     },
     'outside': ['bytes / mido / PrettyMIDI.write', 'tick rounding of note '
-                'times'],
+                'times', 'two tempos at the same instant'],
 }
 
 _QPMS = [120.0, 60.0, 240.0, 30.0, 97.3]
@@ -57,13 +81,15 @@ def _group_key(x):
   return (x['instrument'], x['program'], x['is_drum'])
 
 
-def _mk_events(c, ns, N, nb, ncc):
+def _mk_events(c, ns, N, nb, ncc, instrs=(0, 1, 2), progs=(0, 5)):
   notes, bends, ccs = [], [], []
+  if N == 0:
+    nb = ncc = 0   # bends / control changes ride on notes
   for i in range(N):
     d = dict(pitch=c.int('n%d_p' % i, 0, 127), velocity=c.int('n%d_v' % i, 1, 127),
              start_time=c.real('n%d_s' % i, 0), end_time=c.real('n%d_e' % i),
-             instrument=c.choice('n%d_i' % i, [0, 1, 2]),
-             program=c.choice('n%d_g' % i, [0, 5]),
+             instrument=c.choice('n%d_i' % i, list(instrs)),
+             program=c.choice('n%d_g' % i, list(progs)),
              is_drum=c.concretize(c.bool('n%d_d' % i)))
     c.assume(d['end_time'] > d['start_time'])
     ns.notes.add(**d)
@@ -89,15 +115,124 @@ def _mk_events(c, ns, N, nb, ncc):
   return notes, bends, ccs
 
 
+# Names given through NoteSequence.instrument_infos, by instrument number.
+_INFO_NAMES = ['alpha', 'beta', 'gamma']
+
+
+def _add_infos(c, ns, instrs):
+  """instrument_infos for the first two instrument numbers of `instrs`, the
+  second stored first; returns {instrument number: name}."""
+  infos = {}
+  for k in (1, 0):
+    if k < len(instrs):
+      ns.instrument_infos.add(instrument=instrs[k], name=_INFO_NAMES[k])
+      infos[instrs[k]] = _INFO_NAMES[k]
+  return infos
+
+
+class _Written(object):
+  """What a *_to_midi_file entry point hands to the byte layer."""
+
+  def __init__(self, pm, box):
+    self._pm, self._box = pm, box
+
+  def write(self, f):
+    f.close()
+    self._box.append(self._pm)
+
+
+def _export(c, mio, entry, ns, **kw):
+  """Exports through the entry point `entry`; returns the PrettyMIDI object
+  model that is produced ('direct', 'alias') resp. handed to
+  PrettyMIDI.write ('file', 'file_alias': the byte layer is cut out by
+  recording the object whose write() is called; the file is os.devnull)."""
+  if entry == 'direct':
+    return mio.note_sequence_to_pretty_midi(ns, **kw)
+  if entry == 'alias':
+    return mio.sequence_proto_to_pretty_midi(ns, **kw)
+  import os  # pylint: disable=g-import-not-at-top
+  real = mio.note_sequence_to_pretty_midi
+  box = []
+
+  def recording(*a, **k):
+    return _Written(real(*a, **k), box)
+
+  mio.note_sequence_to_pretty_midi = recording
+  try:
+    fn = (mio.note_sequence_to_midi_file if entry == 'file'
+          else mio.sequence_proto_to_midi_file)
+    fn(ns, os.devnull, **kw)
+  finally:
+    mio.note_sequence_to_pretty_midi = real
+  c.check(len(box) == 1, 'the file entry point writes exactly one object')
+  return box[0]
+
+
+def _import(c, mio, entry, pm):
+  """Imports `pm` through the entry point `entry`.  For 'file' / 'file_alias'
+  the parser PrettyMIDI(<bytes>) is replaced by a stub that yields `pm` (byte
+  layer cut out); the file read is os.devnull."""
+  if entry == 'object':
+    return mio.midi_to_note_sequence(pm)
+  if entry == 'alias':
+    return mio.midi_to_sequence_proto(pm)
+  import os  # pylint: disable=g-import-not-at-top
+  import types  # pylint: disable=g-import-not-at-top
+  if c.mode == 'sym':
+    from engine import pmlite  # pylint: disable=g-import-not-at-top
+    old = pmlite.FROM_FILE[0]
+
+    def from_file(self, f):
+      self.__dict__.update(pm.__dict__)
+
+    pmlite.FROM_FILE[0] = from_file
+
+    def restore():
+      pmlite.FROM_FILE[0] = old
+  else:
+    real = mio.pretty_midi
+
+    class Stub(real.PrettyMIDI):
+
+      def __init__(self, midi_file=None, **kw):
+        real.PrettyMIDI.__init__(self, **kw)
+        if midi_file is not None:
+          self.__dict__.update(pm.__dict__)
+
+    shim = types.SimpleNamespace(**{k: getattr(real, k) for k in dir(real)
+                                    if not k.startswith('__')})
+    shim.PrettyMIDI = Stub
+    mio.pretty_midi = shim
+
+    def restore():
+      mio.pretty_midi = real
+  try:
+    fn = (mio.midi_file_to_note_sequence if entry == 'file'
+          else mio.midi_file_to_sequence_proto)
+    return fn(os.devnull)
+  finally:
+    restore()
+
+
 def h_export_grouping(c):
   mio = c.mod('midi_io')
   N = c.params['N']
+  instrs = c.params.get('instrs', [0, 1, 2])
+  tpq = c.params.get('tpq', 220)
   ns = c.pb.NoteSequence()
-  ns.ticks_per_quarter = 220
-  notes, bends, ccs = _mk_events(c, ns, N, 1, 1)
+  if tpq:
+    ns.ticks_per_quarter = tpq   # 0: the field stays unset
+  notes, bends, ccs = _mk_events(c, ns, N, c.params.get('nb', 1),
+                                 c.params.get('ncc', 1), instrs,
+                                 c.params.get('progs', [0, 5]))
+  infos = _add_infos(c, ns, instrs) if c.params.get('infos') else {}
   before = c.snapshot(ns)
   pm = mio.note_sequence_to_pretty_midi(ns)
+  c.check(pm is not None, 'export returns an object')
   c.check(c.msg_eq(ns, before), 'input unchanged')
+  # music.proto: "A default of 220 is assumed" for an unset ticks_per_quarter
+  c.check(pm.resolution == (tpq or 220),
+          'exported resolution = ticks_per_quarter (220 when unset)')
   groups = {}
   for n in notes:
     groups.setdefault(_group_key(n), []).append(n)
@@ -108,13 +243,18 @@ def h_export_grouping(c):
   import itertools  # pylint: disable=g-import-not-at-top
   keys = list(groups)
 
-  def fits(key, ins):
+  def fits(key, ins, named=False):
     members = groups[key]
     gb = [b for b in bends if _group_key(b) == key]
     gc = [x for x in ccs if _group_key(x) == key]
     if (ins.program != key[1] or bool(ins.is_drum) != bool(key[2]) or
         len(ins.notes) != len(members) or len(ins.pitch_bends) != len(gb) or
         len(ins.control_changes) != len(gc)):
+      return False
+    # midi_io: "propagate instrument name to the midi file" - a name given in
+    # instrument_infos for instrument number i is carried by every exported
+    # instrument made from i (generated names of the others are not claimed)
+    if named and key[0] in infos and ins.name != infos[key[0]]:
       return False
     return c.And(
         K.multiset_eq(c, [(m.pitch, m.velocity, m.start, m.end)
@@ -140,6 +280,16 @@ def h_export_grouping(c):
             'every group (notes with their bends and control changes) is '
             'exported whole to its own instrument with its program and drum '
             'flag: nothing dropped, duplicated or moved')
+    if infos:
+      options = []
+      for perm in itertools.permutations(range(len(used))):
+        row = [fits(keys[g], used[perm[g]], True) for g in range(len(keys))]
+        if any(r is False for r in row):
+          continue
+        options.append(c.And(row))
+      c.check(c.Or(options or [False]),
+              'a name given in instrument_infos for instrument i is carried by '
+              'every exported instrument made from i')
   total = sum(len(i.notes) for i in pm.instruments)
   c.check(total == N, 'exactly the input notes are exported')
   c.cover('two programs on instrument number 0',
@@ -172,40 +322,74 @@ def h_tempo_order(c):
   order = c.params['order']
   for i in order:
     ns.tempos.add(time=ts[i][0], qpm=ts[i][1])
+  before = c.snapshot(ns)
   res, err = c.raises(mio.note_sequence_to_pretty_midi, ns)
   if err is not None:
     c.check(False, 'export failed / produced a tempo map that is not in time '
             'order (%s)' % type(err).__name__)
     return
   pm = res
+  c.check(c.msg_eq(ns, before), 'input unchanged (tempos neither sorted nor '
+          'removed in place)')
+  # params tpq == 0: ticks_per_quarter left unset, music.proto: 220 is assumed
+  tpq = c.params.get('tpq', 256) or 220
+  c.check(pm.resolution == tpq,
+          'exported resolution = ticks_per_quarter (220 when unset)')
   ticks = [t for t, _ in pm._tick_scales]
   c.check(all(bool(a <= b) for a, b in zip(ticks, ticks[1:])),
           'exported tempo map is in time order')
   times, qpms = pm.get_tempo_changes()
   want = sorted(ts, key=lambda x: x[0])
-  if not bool(c.eq(want[0][0], 0)):
+  if not want or not bool(c.eq(want[0][0], 0)):
     want = [(0, 120.0)] + want
   c.check(len(times) == len(want), 'every tempo exported once')
-  tpq = c.params.get('tpq', 256)
   tick_max = 60.0 / (tpq * 30.0)  # one tick at the slowest tempo of the grid
   for (t, q), t2, q2 in zip(want, list(times), list(qpms)):
     c.check(c.approx(q2, q, 1e-9), 'tempo values in time order')
     c.check(c.And(t2 - t <= tick_max, t - t2 <= tick_max),
             'tempo change time within one tick')
+  # reading the exported tempo map back: the same (time, qpm) pairs
+  back = mio.midi_to_note_sequence(pm)
+  c.check(len(back.tempos) == len(want), 'every tempo read back once')
+  got = sorted(back.tempos, key=lambda x: x.time)
+  for (t, q), tp in zip(want, got):
+    c.check(c.And(c.approx(tp.qpm, q, 1e-9), tp.time - t <= tick_max,
+                  t - tp.time <= tick_max),
+            'tempo map read back: each change at its time (within one tick) '
+            'with its qpm')
+  c.check(back.ticks_per_quarter == tpq, 'resolution read back')
   c.cover('later tempo stored first', len(order) >= 2 and order[0] > order[1])
 
 
 def h_import(c):
-  """midi_to_note_sequence on a PrettyMIDI object enumerates everything 1:1."""
+  """midi_to_note_sequence on a PrettyMIDI object enumerates everything 1:1.
+
+  params: I instruments x N notes (+1 bend, +1 control change each), S key and
+  time signatures (default 1), tempos = [(tick, qpm), ...] extra tempo changes
+  after the constructor tempo, named = indices of the instruments that have a
+  name (default: all but the first), entry = object | alias | file | file_alias."""
   mio = c.mod('midi_io')
   pmod = c.pm
   I = c.params['I']
-  pm = pmod.PrettyMIDI(resolution=c.params.get('tpq', 480), initial_tempo=100.0)
+  S = c.params.get('S', 1)
+  res = c.params.get('tpq', 480)
+  pm = pmod.PrettyMIDI(resolution=res, initial_tempo=100.0)
+  # tempo map: concrete ticks and tempos; the expected times are accumulated
+  # here segment by segment (seconds = ticks * 60 / (qpm * resolution))
+  exp_tempos = [(0.0, 100.0)]
+  last_tick, last_time, last_q = 0, 0.0, 100.0
+  for tick, q in c.params.get('tempos', []):
+    last_time += (tick - last_tick) * 60.0 / (last_q * res)
+    last_tick, last_q = tick, q
+    exp_tempos.append((last_time, q))
+    pm._tick_scales.append((tick, 60.0 / (q * res)))  # pylint: disable=protected-access
+    pm._update_tick_to_time(tick)  # pylint: disable=protected-access
   exp_notes, exp_bends, exp_ccs = [], [], []
+  named = c.params.get('named', list(range(1, I)))   # instruments with a name
   for i in range(I):
     prog = c.int('i%d_g' % i, 0, 127)
     drum = c.concretize(c.bool('i%d_d' % i))
-    ins = pmod.Instrument(prog, drum, 'name%d' % i if i else '')
+    ins = pmod.Instrument(prog, drum, 'name%d' % i if i in named else '')
     for j in range(c.params['N']):
       s = c.real('i%dn%d_s' % (i, j), 0)
       e = c.real('i%dn%d_e' % (i, j))
@@ -221,14 +405,20 @@ def h_import(c):
     ins.control_changes.append(pmod.ControlChange(cn, cv, ct))
     exp_ccs.append((cn, cv, ct, i, prog, drum))
     pm.instruments.append(ins)
-  kn = c.int('key', 0, 23)
-  kt = c.real('key_t', 0)
-  pm.key_signature_changes.append(pmod.containers.KeySignature(
-      c.concretize(kn) if c.mode == 'conc' else kn, kt))
-  tn, td = c.int('ts_n', 1, 255), c.choice('ts_d', [1, 2, 4, 8, 16])
-  tt = c.real('ts_t', 0)
-  pm.time_signature_changes.append(pmod.containers.TimeSignature(tn, td, tt))
-  seq = mio.midi_to_note_sequence(pm)
+  exp_ks, exp_ts = [], []
+  for k in range(S):
+    sfx = '' if k == 0 else str(k)
+    kn = c.int('key' + sfx, 0, 23)
+    kt = c.real('key%s_t' % sfx, 0)
+    pm.key_signature_changes.append(pmod.containers.KeySignature(
+        c.concretize(kn) if c.mode == 'conc' else kn, kt))
+    exp_ks.append((kn % 12, kn // 12, kt))
+    tn = c.int('ts%s_n' % sfx, 1, 255)
+    td = c.choice('ts%s_d' % sfx, [1, 2, 4, 8, 16] if k == 0 else [2, 32])
+    tt = c.real('ts%s_t' % sfx, 0)
+    pm.time_signature_changes.append(pmod.containers.TimeSignature(tn, td, tt))
+    exp_ts.append((tn, td, tt))
+  seq = _import(c, mio, c.params.get('entry', 'object'), pm)
   got = [(n.pitch, n.velocity, n.start_time, n.end_time, n.instrument, n.program,
           n.is_drum) for n in seq.notes]
   c.check(K.multiset_eq(c, got, [(True, k) for k in exp_notes]),
@@ -243,18 +433,43 @@ def h_import(c):
       [(True, k) for k in exp_ccs]), 'control changes 1:1')
   c.check(c.eq(seq.total_time, c.Max([0] + [k[3] for k in exp_notes])),
           'total_time = last note end')
-  c.check(len(seq.key_signatures) == 1 and
-          bool(c.And(c.eq(seq.key_signatures[0].key, kn % 12),
-                     c.eq(seq.key_signatures[0].mode, kn // 12),
-                     c.eq(seq.key_signatures[0].time, kt))),
-          'key and mode from key_number')
-  c.check(len(seq.time_signatures) == 1 and
-          bool(c.And(c.eq(seq.time_signatures[0].numerator, tn),
-                     c.eq(seq.time_signatures[0].denominator, td),
-                     c.eq(seq.time_signatures[0].time, tt))), 'time signature')
-  c.check(seq.ticks_per_quarter == pm.resolution and len(seq.tempos) == 1 and
+  if S == 1:
+    kn, kt = exp_ks[0][0] + 12 * exp_ks[0][1], exp_ks[0][2]
+    tn, td, tt = exp_ts[0]
+    c.check(len(seq.key_signatures) == 1 and
+            bool(c.And(c.eq(seq.key_signatures[0].key, kn % 12),
+                       c.eq(seq.key_signatures[0].mode, kn // 12),
+                       c.eq(seq.key_signatures[0].time, kt))),
+            'key and mode from key_number')
+    c.check(len(seq.time_signatures) == 1 and
+            bool(c.And(c.eq(seq.time_signatures[0].numerator, tn),
+                       c.eq(seq.time_signatures[0].denominator, td),
+                       c.eq(seq.time_signatures[0].time, tt))), 'time signature')
+  if S:   # S == 0: an implicit 4/4 made explicit would be allowed - no claim
+    c.check(K.multiset_eq(
+        c, [(k.key, k.mode, k.time) for k in seq.key_signatures],
+        [(True, k) for k in exp_ks]),
+            'every key signature read once (key, mode, time)')
+    c.check(K.multiset_eq(
+        c, [(t.numerator, t.denominator, t.time) for t in seq.time_signatures],
+        [(True, k) for k in exp_ts]),
+            'every time signature read once (numerator, denominator, time)')
+  c.check(seq.ticks_per_quarter == pm.resolution and
+          len(seq.tempos) == len(exp_tempos) and
           bool(c.approx(seq.tempos[0].qpm, 100.0, 1e-9)), 'resolution and tempo')
-  c.check(len(seq.instrument_infos) == I - 1, 'instrument names kept')
+  c.check(all(bool(c.And(c.approx(tp.time, t, 1e-9), c.approx(tp.qpm, q, 1e-9)))
+              for tp, (t, q) in zip(sorted(seq.tempos, key=lambda x: x.time),
+                                    exp_tempos)),
+          'tempo map read: (time, qpm) of every change')
+  c.check(len(seq.instrument_infos) == len(named), 'instrument names kept')
+  c.check(sorted((int(x.instrument), str(x.name))
+                 for x in seq.instrument_infos) ==
+          [(i, 'name%d' % i) for i in sorted(named)],
+          'instrument name attached to the index of its instrument')
+  SI = c.pb.NoteSequence.SourceInfo
+  c.check(seq.source_info.parser == SI.PRETTY_MIDI and
+          seq.source_info.encoding_type == SI.MIDI,
+          'source_info says MIDI parsed by pretty_midi')
 
 
 def h_drop(c):
@@ -277,11 +492,17 @@ def h_drop(c):
   ns.key_signatures.add(time=t_ks, key=7)
   ns.control_changes.add(time=t_cc, control_number=64, control_value=100)
   ns.pitch_bends.add(time=t_pb, bend=100)
-  pm = mio.note_sequence_to_pretty_midi(
-      ns, drop_events_n_seconds_after_last_note=n_drop)
+  before = c.snapshot(ns)
+  pm = _export(c, mio, c.params.get('entry', 'direct'), ns,
+               drop_events_n_seconds_after_last_note=n_drop)
+  c.check(c.msg_eq(ns, before), 'input unchanged (dropped events stay in the '
+          'sequence)')
   cutoff = e_ + n_drop
   ins = [i for i in pm.instruments if len(i.notes)]
   c.check(len(ins) == 1 and len(ins[0].notes) == 1, 'the note is exported')
+  nt = ins[0].notes[0]
+  c.check(c.And(c.eq(nt.pitch, 60), c.eq(nt.velocity, 80), c.eq(nt.start, s_),
+                c.eq(nt.end, e_)), 'the note is exported unchanged')
   for label, t, got in (
       ('time signature', t_ts, len(pm.time_signature_changes)),
       ('key signature', t_ks, len(pm.key_signature_changes)),
@@ -296,20 +517,234 @@ def h_drop(c):
           c.And(ns.total_time + n_drop < t_cc, t_cc <= cutoff))
 
 
+def h_drop_multi(c):
+  """drop_events_n_seconds_after_last_note with more than one of everything:
+  the LAST note is the one that ends last wherever it is stored; every kind of
+  event (tempo changes too) is kept iff its time <= that end + n, each on its
+  own, with its values; through every entry point that takes the argument.
+
+  params: what = 'sig' (2 notes, 2 tempos, 2 time and 2 key signatures) |
+  'ctl' (2 notes on two instruments, a bend and a control change on each) |
+  'empty' (no note at all: only 'the export succeeds and an event at a time
+  <= n is kept' is claimed - the docstring does not say what 'after the last
+  note' means without notes); entry = direct | alias | file | file_alias."""
+  mio = c.mod('midi_io')
+  what = c.params['what']
+  ns = c.pb.NoteSequence()
+  ns.ticks_per_quarter = 256
+  notes = []
+  for i in range(0 if what == 'empty' else 2):
+    s_, e_ = c.real('n%d_s' % i, 0), c.real('n%d_e' % i, 0)
+    c.assume(s_ < e_)
+    d = dict(pitch=c.int('n%d_p' % i, 0, 127), velocity=c.int('n%d_v' % i, 1, 127),
+             start_time=s_, end_time=e_, instrument=i, program=5 * i)
+    ns.notes.add(**d)
+    notes.append(d)
+  ns.total_time = c.real('total_time', 0)   # free: accurate, unset or stale
+  n_drop = c.real('drop', 0, 8)
+  cutoff = (c.Max([n['end_time'] for n in notes]) if notes else 0) + n_drop
+  tempos, tsigs, ksigs, bends, ccs = [], [], [], [], []
+  if what in ('sig', 'empty'):
+    t_tp = c.real('tp_t')
+    c.assume(t_tp > 0)
+    ns.tempos.add(time=t_tp, qpm=60)   # the later one is stored first
+    ns.tempos.add(time=0, qpm=120)
+    tempos.append((t_tp, 60.0))
+    for k, (num, den) in enumerate([(3, 4), (6, 8)][:2 if what == 'sig' else 1]):
+      t = c.real('ts%d_t' % k, 0)
+      ns.time_signatures.add(time=t, numerator=num, denominator=den)
+      tsigs.append((num, den, t))
+    for k, (key, mode) in enumerate([(7, 0), (2, 1)][:2 if what == 'sig' else 1]):
+      t = c.real('ks%d_t' % k, 0)
+      ns.key_signatures.add(time=t, key=key, mode=mode)
+      ksigs.append((key + 12 * mode, t))
+  if what == 'ctl':
+    for k in (1, 0):   # the event of the second instrument is stored first
+      t = c.real('pb%d_t' % k, 0)
+      v = c.int('pb%d_v' % k, -8192, 8191)
+      ns.pitch_bends.add(time=t, bend=v, instrument=k, program=5 * k)
+      bends.append((k, (v, t)))
+      t = c.real('cc%d_t' % k, 0)
+      v = c.int('cc%d_v' % k, 0, 127)
+      ns.control_changes.add(time=t, control_number=64 + k, control_value=v,
+                             instrument=k, program=5 * k)
+      ccs.append((k, (64 + k, v, t)))
+  before = c.snapshot(ns)
+  pm = _export(c, mio, c.params.get('entry', 'direct'), ns,
+               drop_events_n_seconds_after_last_note=n_drop)
+  c.check(pm is not None, 'export returns an object')
+  c.check(c.msg_eq(ns, before), 'input unchanged (dropped events stay in the '
+          'sequence)')
+
+  def kept(t):
+    return c.concretize(t <= cutoff)
+
+  only_kept = what != 'empty'   # without notes: nothing claimed about drops
+
+  def same_bag(got, exp, label):
+    exp_kept = [k for keep, k in exp if keep]
+    if only_kept:
+      c.check(K.multiset_eq(c, got, [(True, k) for k in exp_kept]), label)
+    else:
+      c.check(c.And([c.Or([K.key_eq(c, g, k) for g in got] or [False])
+                     for k in exp_kept] or [True]), label)
+
+  same_bag([(t.numerator, t.denominator, t.time)
+            for t in pm.time_signature_changes],
+           [(kept(k[2]), k) for k in tsigs],
+           'time signatures: exactly those with time <= last note end + n, '
+           'with their values')
+  same_bag([(k.key_number, k.time) for k in pm.key_signature_changes],
+           [(kept(k[1]), k) for k in ksigs],
+           'key signatures: exactly those with time <= last note end + n, '
+           'with their values')
+  if tempos:
+    times, qpms = pm.get_tempo_changes()
+    keep = kept(tempos[0][0])
+    if only_kept or keep:
+      c.check(len(times) == (2 if keep else 1) and
+              bool(c.approx(qpms[0], 120.0, 1e-9)),
+              'tempo change kept iff its time <= last note end + n')
+    if keep and len(times) == 2:
+      tick = 60.0 / (256 * 120.0)
+      c.check(c.And(c.approx(qpms[1], 60.0, 1e-9),
+                    times[1] - tempos[0][0] <= tick,
+                    tempos[0][0] - times[1] <= tick),
+              'kept tempo change has its qpm and time (within one tick)')
+  total = sum(len(i.notes) for i in pm.instruments)
+  c.check(total == len(notes), 'exactly the input notes are exported')
+  for k, n in enumerate(notes):
+    ins = [i for i in pm.instruments if len(i.notes) and i.program == 5 * k]
+    c.check(len(ins) == 1 and len(ins[0].notes) == 1 and bool(c.And(
+        c.eq(ins[0].notes[0].pitch, n['pitch']),
+        c.eq(ins[0].notes[0].velocity, n['velocity']),
+        c.eq(ins[0].notes[0].start, n['start_time']),
+        c.eq(ins[0].notes[0].end, n['end_time']))),
+            'each note is exported unchanged to the instrument of its group')
+    same_bag([(b.pitch, b.time) for b in ins[0].pitch_bends],
+             [(kept(v[1]), v) for g, v in bends if g == k],
+             'pitch bends of each instrument: exactly those with time <= last '
+             'note end + n')
+    same_bag([(x.number, x.value, x.time) for x in ins[0].control_changes],
+             [(kept(v[2]), v) for g, v in ccs if g == k],
+             'control changes of each instrument: exactly those with time <= '
+             'last note end + n')
+  if len(notes) == 2:
+    c.cover('the note that ends last is stored first',
+            notes[0]['end_time'] > notes[1]['end_time'])
+    c.cover('the note that starts last is not the one that ends last',
+            c.And(notes[0]['end_time'] > notes[1]['end_time'],
+                  notes[0]['start_time'] < notes[1]['start_time']))
+
+
+def h_meta(c):
+  """Header and signatures through export and import: ticks_per_quarter (also
+  unset -> 220), several time / key signatures in any storage order with every
+  power-of-two denominator, no tempo at all (-> the implicit 120 qpm), and a
+  second export of the same sequence."""
+  mio = c.mod('midi_io')
+  tpq = c.choice('tpq', [0, 24, 480, 960])
+  ns = c.pb.NoteSequence()
+  if tpq:
+    ns.ticks_per_quarter = tpq
+  s_, e_ = c.real('n_s', 0), c.real('n_e', 0)
+  c.assume(s_ < e_)
+  ns.notes.add(pitch=c.int('n_p', 0, 127), velocity=c.int('n_v', 1, 127),
+               start_time=s_, end_time=e_)
+  tsigs, ksigs = [], []
+  for k in range(2):
+    t = c.real('ts%d_t' % k, 0)
+    num = c.int('ts%d_n' % k, 1, 12)
+    den = c.choice('ts%d_d' % k, [1, 2, 4, 8, 16, 32] if k == 0 else [4, 16])
+    ns.time_signatures.add(time=t, numerator=num, denominator=den)
+    tsigs.append((num, den, t))
+    t = c.real('ks%d_t' % k, 0)
+    key = c.int('ks%d_k' % k, 0, 11)
+    mode = c.concretize(c.int('ks%d_m' % k, 0, 1))
+    ns.key_signatures.add(time=t, key=key, mode=mode)
+    ksigs.append((key, mode, t))
+  before = c.snapshot(ns)
+  pm = _export(c, mio, c.params.get('entry', 'direct'), ns)
+  c.check(c.msg_eq(ns, before), 'input unchanged')
+  c.check(pm.resolution == (tpq or 220),
+          'exported resolution = ticks_per_quarter (220 when unset)')
+  c.check(K.multiset_eq(c, [(t.numerator, t.denominator, t.time)
+                            for t in pm.time_signature_changes],
+                        [(True, k) for k in tsigs]),
+          'every time signature exported once with its values')
+  c.check(K.multiset_eq(c, [(k.key_number, k.time)
+                            for k in pm.key_signature_changes],
+                        [(True, (k[0] + 12 * k[1], k[2])) for k in ksigs]),
+          'every key signature exported once (minor = key + 12)')
+  times, qpms = pm.get_tempo_changes()
+  c.check(len(times) == 1 and bool(c.And(c.eq(times[0], 0),
+                                         c.approx(qpms[0], 120.0, 1e-9))),
+          'no tempo in the sequence: the implicit 120 qpm and nothing else')
+  # a second export of the same sequence gives the same object model and
+  # leaves the first result alone
+  def summary(x):
+    return (x.resolution,
+            [(t.numerator, t.denominator, t.time)
+             for t in x.time_signature_changes],
+            [(k.key_number, k.time) for k in x.key_signature_changes],
+            [(i.program, bool(i.is_drum),
+              [(n.pitch, n.velocity, n.start, n.end) for n in i.notes])
+             for i in x.instruments])
+
+  def same(a, b):
+    if (a[0] != b[0] or [len(x) for x in a[1:]] != [len(x) for x in b[1:]] or
+        [(p, d, len(n)) for p, d, n in a[3]] !=
+        [(p, d, len(n)) for p, d, n in b[3]]):
+      return False
+    flat_a = a[1] + a[2] + [n for _, _, ns_ in a[3] for n in ns_]
+    flat_b = b[1] + b[2] + [n for _, _, ns_ in b[3] for n in ns_]
+    return c.And([K.key_eq(c, x, y) for x, y in zip(flat_a, flat_b)] or [True])
+
+  first = summary(pm)
+  pm2 = mio.note_sequence_to_pretty_midi(ns)
+  c.check(same(summary(pm2), first),
+          'a second export of the same sequence gives the same object model')
+  c.check(same(summary(pm), first),
+          'the first exported object is not altered by a second export')
+  back = _import(c, mio, c.params.get('imp', 'object'), pm)
+  c.check(back.ticks_per_quarter == (tpq or 220), 'same resolution read back')
+  c.check(K.multiset_eq(
+      c, [(t.numerator, t.denominator, t.time) for t in back.time_signatures],
+      [(True, k) for k in tsigs]), 'same time signatures read back')
+  c.check(K.multiset_eq(c, [(k.key, k.mode, k.time) for k in back.key_signatures],
+                        [(True, k) for k in ksigs]),
+          'same key signatures read back')
+  c.check(len(back.tempos) == 1 and bool(c.And(
+      c.eq(back.tempos[0].time, 0), c.approx(back.tempos[0].qpm, 120.0, 1e-9))),
+          'implicit tempo read back as 120 qpm at time 0')
+  c.check(len(back.notes) == 1 and bool(c.And(
+      c.eq(back.notes[0].start_time, s_), c.eq(back.notes[0].end_time, e_),
+      c.eq(back.total_time, e_))), 'the note and total_time read back')
+  c.cover('later time signature stored first', tsigs[0][2] > tsigs[1][2])
+  c.cover('both key signatures at one time', c.eq(ksigs[0][2], ksigs[1][2]))
+
+
 def h_roundtrip(c):
   """import(export(s)) == s as a bag, instruments renumbered consistently."""
   mio = c.mod('midi_io')
   N = c.params['N']
+  instrs = c.params.get('instrs', [0, 1, 2])
+  tpq = c.params.get('tpq', 220)
   ns = c.pb.NoteSequence()
-  ns.ticks_per_quarter = 220
-  notes, bends, ccs = _mk_events(c, ns, N, 1, 1)
+  ns.ticks_per_quarter = tpq
+  notes, bends, ccs = _mk_events(c, ns, N, c.params.get('nb', 1),
+                                 c.params.get('ncc', 1), instrs,
+                                 c.params.get('progs', [0, 5]))
+  infos = _add_infos(c, ns, instrs) if c.params.get('infos') else {}
   ns.tempos.add(time=0, qpm=97.3)
   ns.time_signatures.add(time=c.real('ts_t', 0), numerator=c.int('ts_n', 1, 12),
                          denominator=c.choice('ts_d', [2, 4, 8]))
   ns.key_signatures.add(time=c.real('ks_t', 0), key=c.int('ks_k', 0, 11),
                         mode=c.int('ks_m', 0, 1))
-  pm = mio.note_sequence_to_pretty_midi(ns)
-  back = mio.midi_to_note_sequence(pm)
+  before = c.snapshot(ns)
+  pm = _export(c, mio, c.params.get('entry', 'direct'), ns)
+  back = _import(c, mio, c.params.get('imp', 'object'), pm)
+  c.check(c.msg_eq(ns, before), 'input unchanged')
   c.check(K.multiset_eq(
       c, [(n.pitch, n.velocity, n.start_time, n.end_time, n.program, n.is_drum)
           for n in back.notes],
@@ -350,7 +785,57 @@ def h_roundtrip(c):
           'same time and key signature')
   c.check(len(back.tempos) == 1 and bool(c.approx(back.tempos[0].qpm, 97.3, 1e-9))
           and bool(c.eq(back.tempos[0].time, 0)), 'same tempo')
-  c.check(back.ticks_per_quarter == 220, 'same resolution')
+  c.check(back.ticks_per_quarter == tpq, 'same resolution')
+  c.check(c.eq(back.total_time, c.Max([0] + [n['end_time'] for n in notes])),
+          'total_time read back = end of the last note')
+
+  def okey(n):
+    return (n['pitch'], n['velocity'], n['start_time'], n['end_time'],
+            n['program'], n['is_drum'])
+
+  def bkey(A):
+    return (A.pitch, A.velocity, A.start_time, A.end_time, A.program, A.is_drum)
+
+  # bends / control changes stay on the instrument that has their notes: the
+  # new instrument number of an event is the new number of some note of the
+  # event's old (instrument, program, is_drum) group
+  def rides(ev_out, key_out, evs_in, key_in, label):
+    for E in ev_out:
+      opts = []
+      for e in evs_in:
+        for A in outs:
+          for n in notes:
+            if _group_key(n) != _group_key(e):
+              continue
+            opts.append(c.And(K.key_eq(c, key_out(E), key_in(e)),
+                              K.key_eq(c, bkey(A), okey(n)),
+                              c.eq(E.instrument, A.instrument)))
+      c.check(c.Or(opts or [False]), label)
+
+  rides(back.pitch_bends, lambda E: (E.bend, E.time, E.program, E.is_drum),
+        bends, lambda e: (e['bend'], e['time'], e['program'], e['is_drum']),
+        'every bend comes back on the instrument number of its notes')
+  rides(back.control_changes,
+        lambda E: (E.control_number, E.control_value, E.time, E.program,
+                   E.is_drum), ccs,
+        lambda e: (e['control_number'], e['control_value'], e['time'],
+                   e['program'], e['is_drum']),
+        'every control change comes back on the instrument number of its '
+        'notes')
+  if infos:
+    # names given in instrument_infos travel with the notes (generated names
+    # of other instruments are not claimed)
+    names = {}
+    for x in back.instrument_infos:
+      names.setdefault(int(x.instrument), []).append(str(x.name))
+    for A in outs:
+      got = names.get(int(A.instrument), [])
+      c.check(c.Or([c.And(K.key_eq(c, bkey(A), okey(n)),
+                          n['instrument'] not in infos or
+                          got == [infos[n['instrument']]])
+                    for n in notes]),
+              'a name given in instrument_infos comes back on the instrument '
+              'number of the notes it was given for')
 
 
 HARNESSES = {
@@ -359,6 +844,8 @@ HARNESSES = {
     'h_tempo_order': h_tempo_order,
     'h_import': h_import,
     'h_roundtrip': h_roundtrip,
+    'h_drop_multi': h_drop_multi,
+    'h_meta': h_meta,
 }
 
 
@@ -387,6 +874,45 @@ def jobs(tier):
   add('h_import', I=1, N=2)
   add('h_import', I=2, N=1)
   add('h_roundtrip', N=2, budget=900)
+  # --- header fields, names, other instrument numbers, degenerate sizes
+  add('h_export_grouping', N=0)
+  add('h_export_grouping', N=1, nb=2, ncc=2, tpq=0)
+  add('h_export_grouping', N=2, instrs=[0, 9, 17], progs=[0, 127], infos=True,
+      tpq=480, budget=900)
+  add('h_roundtrip', N=2, instrs=[0, 9, 17], progs=[0, 127], infos=True,
+      tpq=480, nb=2, budget=900)
+  add('h_roundtrip', N=1, nb=2, ncc=2, tpq=24, entry='file', imp='file_alias')
+  add('h_meta')
+  add('h_meta', entry='file_alias', imp='file')
+  # --- tempo maps: none / one tempo, other resolutions (0 = field unset)
+  add('h_tempo_order', K=0, q=[], order=[])
+  add('h_tempo_order', K=1, q=[1], order=[0])
+  add('h_tempo_order', K=1, q=[2], order=[0], first_at_zero=False)
+  add('h_tempo_order', K=2, q=[1, 2], order=[1, 0], tpq=480)
+  add('h_tempo_order', K=2, q=[2, 1], order=[1, 0], tpq=0)
+  add('h_tempo_order', K=2, q=[4, 0], order=[1, 0], tpq=220, budget=300)
+  add('h_tempo_order', K=2, q=[0, 4], order=[1, 0], tpq=220, budget=300)
+  add('h_tempo_order', K=2, q=[4, 1], order=[1, 0], tpq=220, budget=300,
+      first_at_zero=False)
+  add('h_tempo_order', K=3, q=[1, 4, 2], order=[2, 0, 1], tpq=220, budget=300)
+  # --- the drop argument: through every entry point, several of each kind
+  add('h_drop', entry='alias')
+  add('h_drop', entry='file_alias')
+  add('h_drop_multi', what='sig')
+  add('h_drop_multi', what='ctl')
+  add('h_drop_multi', what='empty')
+  add('h_drop_multi', what='sig', entry='file')
+  add('h_drop_multi', what='ctl', entry='alias')
+  add('h_drop_multi', what='empty', entry='file_alias')
+  # --- import: empty instruments / no instruments, several signatures, a real
+  # tempo map, the renamed and the file entry points
+  add('h_import', I=1, N=0)
+  add('h_import', I=0, N=0, S=0)
+  add('h_import', I=1, N=1, S=2)
+  add('h_import', I=2, N=1, tempos=[(480, 60.0), (1440, 240.0)], entry='alias')
+  add('h_import', I=3, N=0, S=0, named=[0, 2], tempos=[(100, 97.3)],
+      entry='file')
+  add('h_import', I=1, N=1, entry='file_alias')
   if deep:
     add('h_export_grouping', N=4, budget=3000, required=False)
     for q in itertools.permutations(range(4), 3):
@@ -397,5 +923,13 @@ def jobs(tier):
     add('h_tempo_order', K=2, q=[4, 0], order=[1, 0], tpq=220, budget=900,
         required=False)
     add('h_import', I=2, N=2, budget=1800)
+    add('h_import', I=2, N=1, S=2, named=[0], tempos=[(1, 30.0), (2, 240.0)],
+        budget=1800)
     add('h_roundtrip', N=3, budget=3000)
+    add('h_export_grouping', N=3, instrs=[0, 9, 17], progs=[0, 127],
+        infos=True, tpq=960, nb=2, ncc=2, budget=3000)
+    for entry in ('alias', 'file', 'file_alias'):
+      add('h_drop_multi', what='sig', entry=entry)
+      add('h_drop_multi', what='ctl', entry=entry)
+      add('h_drop', entry=entry)
   return J
